@@ -32,6 +32,8 @@ func runC16(c *Ctx) {
 	joinSep, joinPos := "", token.NoPos
 	var nameFnWriter *types.Func
 	for _, fd := range allFuncDecls(gp) {
+		var nameFnHere *types.Func
+		joinsHere := false
 		ast.Inspect(fd.Body, func(n ast.Node) bool {
 			call, ok := n.(*ast.CallExpr)
 			if !ok {
@@ -44,13 +46,18 @@ func runC16(c *Ctx) {
 			if fullName(fn) == "strings.Join" && len(call.Args) == 2 && strings.HasSuffix(types.ExprString(call.Args[0]), ".Literals") {
 				if s, ok := constString(gp.TypesInfo, call.Args[1]); ok {
 					joinSep, joinPos = s, call.Pos()
+					joinsHere = true
 				}
 			}
-			if strings.Contains(fn.Name(), "TextFileName") && fd.Name.Name == "generate" {
-				nameFnWriter = fn
+			// the function that names the text file where the literals are joined for it
+			if strings.Contains(fn.Name(), "TextFileName") {
+				nameFnHere = fn
 			}
 			return true
 		})
+		if joinsHere && nameFnHere != nil {
+			nameFnWriter = nameFnHere
+		}
 	}
 	if joinPos == token.NoPos {
 		c.viol("C16.R2", "anchor-lost:literal-join", "", "the command no longer joins GeneratorOutput.Literals with a constant separator")
